@@ -185,6 +185,9 @@ type OpStore struct {
 	putCall int
 	GetErr  func(suffix string) error // fault injection: the read fails (database unreachable)
 	GetHook func()                    // called (without the lock) at the start of every Get: lets a harness widen interleavings
+	// KeepPointers: Put keeps the operation objects it is handed instead of copying them (what a plain in-memory store does,
+	// e.g. the library's own mock); whoever changes such an object later changes the stored history
+	KeepPointers bool
 }
 
 // NewOpStore creates an empty store.
@@ -202,6 +205,10 @@ func (s *OpStore) Put(ops []*operation.AnchoredOperation) error {
 	}
 	cp := make([]*operation.AnchoredOperation, len(ops))
 	for i, o := range ops {
+		if s.KeepPointers {
+			cp[i] = o
+			continue
+		}
 		c := *o
 		cp[i] = &c
 	}
